@@ -213,6 +213,7 @@ CATALOGUE = {
     "C15": [
         H("c15::proofs::c15_flags_hold_value", Q, what="flag::register / register_usize through the real dispatcher, application writes in between", bounds="any bool/usize values, 2 deliveries"),
         H("c15::proofs::c15_conditional_shutdown", Q, what="conditional shutdown + arming flag, both registration orders, any status (c_int), every arm/disarm/deliver history", bounds="history length 3"),
+        H("c15::proofs::c15_conditional_shutdown_sole_owner", Q, what="the application hands its only strong reference to register_conditional_shutdown and arms / disarms through a Weak afterwards: any initial value, every arm/disarm/deliver history: dies iff the flag is true when the action runs", bounds="history length 3, any status"),
         H("c15::proofs::c15_conditional_shutdown_len6", T, timeout=2400, what="same, histories of length 6", bounds="history length 6"),
     ],
     "C16": [
